@@ -736,7 +736,7 @@ class Side:
 	def check_valid(self, entry, autosort, type_name, wire, expected, forms, answer):
 		# pylint: disable=too-many-locals,too-many-branches,too-many-statements
 		ctx = self.ctx
-		case = self.case_of(entry, autosort, wire, type=type_name)
+		case = self.case_of(entry, autosort, wire, type=type_name, expected=expected)
 		ctx.case((self.cid, entry, autosort, codec.dumps(wire)), {'case': self.label(case), 'forms': forms} if ctx.rng.random() < 0.02 else None)
 		for form in forms:
 			ctx.count(f'form:{form}')
@@ -1197,8 +1197,11 @@ def replay(ctx, payload):
 		print('serialize():', *[part if not isinstance(part, bytes) else part.hex().upper() for part in side.serialize(transaction)])
 	if ctx.driver:
 		print('model:', ctx.driver.ask(side.request(case['entry'], case['autosort'], wire))[:2000])
+	answer = ctx.driver.ask(side.request(case['entry'], case['autosort'], wire)) if ctx.driver else None
 	if 'category' in case:
-		side.check_malformed(case['entry'], case['autosort'], case['type'], case['category'], wire, case.get('note', ''), None)
+		side.check_malformed(case['entry'], case['autosort'], case['type'], case['category'], wire, case.get('note', ''), answer)
+	elif 'expected' in case:
+		side.check_valid(case['entry'], case['autosort'], case['type'], wire, case['expected'], [], answer)
 
 
 MANIFEST = {
